@@ -255,42 +255,8 @@ def run(ctx):
                     run.finding(Finding(R6, cf.id, "the minimum fee is not computed from the transaction's own input/output/kernel counts", site=c.site_of(cf, b), detail=str(kinds)))
     R7 = "C02.R7"
     run.rule(R7, "the flow finalize runs in must match the wallet's own record: update_stored_tx(is_invoiced) selects a TxSent entry iff !is_invoiced, a TxReceived entry iff is_invoiced", floor=2)
-    us = ctx.fn(TX + "update_stored_tx")
-    if us:
-        TLT_ = c.LW + "types::TxLogEntryType"
-        ip = c.param(us, "is_invoiced", "bool")
-        gi = cfg.local_guard(us, ip) if ip is not None else None
-        cmpx = {}
-        for x in cfg.comparisons(us):
-            if x.op != "Eq":
-                continue
-            pl, pr = vf.producers(us, x.l), vf.producers(us, x.r)
-            for a, b_ in ((pl, pr), (pr, pl)):
-                if vf.has_field(a, c.LW + "types::TxLogEntry", "tx_type"):
-                    for lit in ("TxSent", "TxReceived"):
-                        if ("agg", TLT_, lit) in b_:
-                            cmpx[lit] = x
-        picks = [b for b, bb in enumerate(us.bbs) if not bb["cleanup"] for st in bb["s"] if st["k"] == "a" and st["r"]["k"] == "agg" and st["r"].get("adt") == "core::option::Option" and st["r"].get("var") == "Some" and us.locals[st["d"][0]]["ty"].startswith("core::option::Option<" + c.LW + "types::TxLogEntry")]
-        if gi is None or not gi.ok or not gi.fail or len(cmpx) != 2 or not picks:
-            run.error("C02.R7: update_stored_tx anchors not found (is_invoiced switch %s, type comparisons %s, selections %d)" % (bool(gi and gi.ok), sorted(cmpx), len(picks)))
-        else:
-            for b in picks:
-                sent = cfg.must_pass(us, cmpx["TxSent"].true_edges, {b})[0] and cfg.must_pass(us, gi.fail, {b})[0]
-                recv = cfg.must_pass(us, cmpx["TxReceived"].true_edges, {b})[0] and cfg.must_pass(us, gi.ok, {b})[0]
-                h = sent != recv
-                run.instance(R7, {"fn": "update_stored_tx", "obligation": "entry selected only as (TxSent and !is_invoiced) or (TxReceived and is_invoiced)", "site": c.site_of(us, b), "as": "send" if sent else ("invoice" if recv else "?")}, held=h)
-                if not h:
-                    run.finding(Finding(R7, us.id, "the log entry to finalize is selected without tying its type to the flow (a reply re-labelled Standard2 <-> Invoice2 would be finalized in the other flow)", site=c.site_of(us, b)))
-        # and no entry => error
-        h = False
-        for l in range(us.argc + 1, len(us.locals)):
-            if us.locals[l].get("u") and us.locals[l]["ty"].startswith("core::option::Option<" + c.LW + "types::TxLogEntry"):
-                go = cfg.local_guard(us, l, kind="option")
-                if go.ok and cfg.must_pass(us, go.ok, cfg.return_blocks(us), cut_nodes=cfg.error_return_blocks(us))[0]:
-                    h = True
-        run.instance(R7, {"fn": "update_stored_tx", "obligation": "Ok only if an entry was selected"}, held=h)
-        if not h:
-            run.finding(Finding(R7, us.id, "update_stored_tx can return Ok without having found the entry of this flow", site=us.loc()))
+    from .shared import flow_tied_entry
+    flow_tied_entry(ctx, R7)
     run.not_decided += [
         "consensus validity of the produced transaction as such (cryptographic/numeric)",
         "that an altered reply is detected by the signature arithmetic (relies on verify_* semantics)",
